@@ -1,3 +1,2 @@
-import AdaptixModel.Protocol
-/- placeholder: the model driver of this property group is not built yet -/
-def main : IO Unit := Adaptix.Protocol.serve (fun _ => .error "driver not implemented")
+import AdaptixModel.Ops.C13
+def main : IO Unit := Adaptix.Protocol.serve Adaptix.Ops.C13.handle
